@@ -14,7 +14,12 @@ import (
 
 const repoDir = "/repo"
 
-var verifDir = "/verif"
+var verifDir = func() string {
+	if d := os.Getenv("VERIF_DIR"); d != "" {
+		return d
+	}
+	return "/verif"
+}()
 
 // pkgDirOf maps a harness sub-directory to the repo package directory.
 func pkgDirOf(h string) string {
